@@ -402,6 +402,15 @@ def check_containers(case):
                'ns-contents')
     else:
         expect(lines == [f'namespace{label} {{}}'], f'empty namespace: {lines!r}', 'ns-empty')
+    # containers constructed without contents and filled in place are independent of each other
+    first, second = Namespace(NamespaceIds(ids)), Namespace(NamespaceIds(['Other']))
+    first.contents.append(list(body) or ['int z;'])
+    expect(str(second) == 'namespace Other {}\n', f'a namespace constructed without contents renders '
+           f'{str(second)!r} after another one was filled in place', 'ns-shared-default')
+    s1, s2 = Struct('S1'), Struct('S2')
+    s1.contents.append('int a;')
+    expect(str(s2) == 'struct S2\n{\n};\n', f'struct without contents renders {str(s2)!r} after '
+           f'another one was filled in place', 'struct-shared-default')
     for cls, kw in ((Struct, 'struct'), (Class, 'class')):
         s = cls(case['name'], TextBlock(list(body)))
         out = str(s)
